@@ -406,6 +406,41 @@ func checkC11(c any, r *Rec) error {
 			return fmt.Errorf("composition differs\n got  %q\n want %q\n %s", got, want.String(), desc())
 		}
 	}
+	// the loaders' content changes: what is compiled afresh afterwards shows the new content by
+	// every route - literal names as well as names computed at run time
+	if werr == nil {
+		cs2 := &c11Case{Root: cs.Root}
+		for i, m := range cs.Loaders {
+			m2 := map[string]c11File{}
+			for n, f := range m {
+				g := f
+				g.Items = append([]c11Item(nil), f.Items...)
+				for k := range g.Items {
+					if g.Items[k].Kind == "text" || g.Items[k].Kind == "blockhere" {
+						g.Items[k].Text += "~v2"
+					}
+				}
+				m2[n] = g
+				lds[i].set(n, g.source())
+			}
+			cs2.Loaders = append(cs2.Loaders, m2)
+		}
+		ref2 := &c11Ref{cs: cs2, visited: map[string]bool{}, lazyVar: ref.lazyVar}
+		root2, _ := ref2.lookup(cs2.Root)
+		var want2 strings.Builder
+		if e := ref2.render(cs2.Root, root2, &c11Env{cv: "C"}, &want2, nil); e == nil {
+			tpl2, cerr2 := set.FromFile(cs.Root)
+			var got2 string
+			var xerr2 error
+			if cerr2 == nil {
+				got2, xerr2 = tpl2.Execute(ctx)
+			}
+			if cerr2 != nil || xerr2 != nil || got2 != want2.String() {
+				return fmt.Errorf("after the content of every file changed, a fresh FromFile of the root renders\n got  %q (compile: %v, execute: %v)\n want %q\n %s", got2, cerr2, xerr2, want2.String(), desc())
+			}
+			r.Class("content-changed-and-recompiled")
+		}
+	}
 	// loader traffic: nothing may be fetched that the composition does not reference,
 	// and what it uses must have come through a loader
 	for i, ld := range lds {
@@ -730,7 +765,7 @@ func genC11(t *rapid.T) *c11Case {
 
 var _ = register(&propSpec{
 	ID:    "C11.compose",
-	Rule:  "virtual file trees (10 names with equal base names in different directories up to 3 deep), 1-3 loaders serving overlapping names with different contents, acyclic reference graphs over include (static / lazy, with pair, only, if_exists), extends (+ block override), import (+ call), ssi plain (content never parsed) and ssi parsed; names written rooted, relative (incl. ..) and rooted with a detour; references to names no loader serves (by every tag; also from inside the target of an if_exists include, which if_exists does not forgive); includer variables (context, set, with pair, a set of the very name a pair passes) probed in every file. The worker's working directory holds canary files at the same relative paths, and two of the virtual names also exist as absolute paths of the real file system (canary content); none of them is served by a loader. Oracle: reference composition (first loader having a name wins; relative names resolve against the referring file; missing => error, or nothing with if_exists; only hides includer variables), the loaders' Get logs contain no name outside the referenced set and everything used was fetched, no canary text ever appears. Non-trivial: loaders disagree on a name, or a relative reference crosses directories, or only / if_exists present.",
+	Rule:  "virtual file trees (10 names with equal base names in different directories up to 3 deep), 1-3 loaders serving overlapping names with different contents, acyclic reference graphs over include (static / lazy, with pair, only, if_exists), extends (+ block override), import (+ call), ssi plain (content never parsed) and ssi parsed; names written rooted, relative (incl. ..) and rooted with a detour; references to names no loader serves (by every tag; also from inside the target of an if_exists include, which if_exists does not forgive); includer variables (context, set, with pair, a set of the very name a pair passes) probed in every file. The worker's working directory holds canary files at the same relative paths, and two of the virtual names also exist as absolute paths of the real file system (canary content); none of them is served by a loader. Oracle: reference composition (first loader having a name wins; relative names resolve against the referring file; missing => error, or nothing with if_exists; only hides includer variables), the loaders' Get logs contain no name outside the referenced set and everything used was fetched, no canary text ever appears; then the content of every file changes and a fresh FromFile of the root must show the new content by every route (literal and computed names alike). Non-trivial: loaders disagree on a name, or a relative reference crosses directories, or only / if_exists present.",
 	Gen:   func(t *rapid.T) any { return genC11(t) },
 	New:   func() any { return &c11Case{} },
 	Check: checkC11,
